@@ -61,7 +61,17 @@ func vxCount(l []vxImp, x vxImp) int {
 func VxC23() {
 	K := vxParam("K")
 	k := vxConcrete(vxIntRange(1, K))
-	src := "package p\n\nimport (\n"
+	// LEAD: what surrounds the block - 0 a Go-style file, 1 a single-line import declaration in front of
+	// the block, 2 one behind it, 3 an XGo script (no package clause) with a single-line import in front
+	lead := vxConcrete(vxIntRange(0, vxParam("LEAD")))
+	src := "package p\n\n"
+	if lead == 3 {
+		src = ""
+	}
+	if lead == 1 || lead == 3 {
+		src += "import \"pz\"\n\n"
+	}
+	src += "import (\n"
 	for i := 0; i < k; i++ {
 		name := vxC23Names[vxConcrete(vxIntRange(0, len(vxC23Names)-1))]
 		x := byte('a' + vxConcrete(vxIntRange(0, 2))) // equal, ordered and duplicate paths all occur
@@ -75,6 +85,12 @@ func VxC23() {
 		}
 	}
 	src += ")\n"
+	if lead == 2 {
+		src += "\nimport \"pz\"\n"
+	}
+	if lead == 3 {
+		src += "\necho 1\n"
+	}
 	vxNote("src", src)
 
 	fset1 := token.NewFileSet()
